@@ -476,9 +476,14 @@ def observed_outcome(req, pypkg, val, err, want_for_type_error, is_async=False):
 
 
 # ------------------------------------------------------------------ schema-level T2 (+ oracle on the decision)
+def corpus_cells():
+    import glob
+    return [json.load(open(f))["cell"] for f in sorted(glob.glob(os.path.join(env.VERIF, "corpus", "C08", "*.json")))]
+
+
 def grid(ctx, n):
     cells = []
-    corpus = [
+    corpus = corpus_cells() + [
         {"pkg_index": 0, "resp": "rel_notimported", "meta": "fq_same", "annotated": True, "order": "svc-first"},
         {"pkg_index": 0, "resp": "rel_same", "meta": "rel_same", "annotated": False, "order": "types-first"},
         {"pkg_index": 1, "resp": "missing", "meta": "rel_same", "annotated": True, "order": "types-first"},
@@ -834,7 +839,7 @@ def e2e_case(args):
 
 
 def e2e_cells(ctx, n):
-    cells = [
+    cells = corpus_cells() + [
         {"pkg_index": 0, "resp": "rel_notimported", "meta": "fq_same", "annotated": True, "order": "svc-first"},
         {"pkg_index": 1, "resp": "empty", "meta": "rel_imported", "annotated": True, "order": "types-first"},
         {"pkg_index": 2, "resp": "rel_same", "meta": "rel_same", "annotated": False, "order": "types-first"},
@@ -858,7 +863,11 @@ def e2e_cells(ctx, n):
              "types_name": r.choice(["types", "types", "operation", "operation_async"]), "ops_http": r.random() < 0.3}
         if c not in cells:
             cells.append(c)
-    return cells[:n]
+    out = []
+    for c in cells:
+        if c not in out:
+            out.append(c)
+    return out[:n]
 
 
 def run_e2e(ctx, cells, tier_all, full=True):
